@@ -40,13 +40,15 @@ func raceRound(o *opts, r *rng, round, width int) int {
 	defer rmrf(base)
 	work := filepath.Join(base, "work")
 	data := filepath.Join(work, "data")
-	must(os.MkdirAll(filepath.Join(data, "sub"), 0o755))
+	for k := 0; k < 5; k++ {
+		must(os.MkdirAll(filepath.Join(data, fmt.Sprintf("sub%d", k)), 0o755))
+	}
 	want := map[string]string{}
 	for k := 0; k < width; k++ {
 		b := append([]byte(fmt.Sprintf("file %d of round %d ", k, round)), r.bytes(200+r.intn(3000))...)
 		name := fmt.Sprintf("f%04d", k)
-		if k%7 == 0 {
-			name = "sub/" + name
+		if k%3 == 0 {
+			name = fmt.Sprintf("sub%d/", k%5) + name // several sibling sub-directories
 		}
 		must(os.WriteFile(filepath.Join(data, name), b, 0o644))
 		want[name] = refDigest(b)
@@ -98,7 +100,21 @@ func raceRound(o *opts, r *rng, round, width int) int {
 			}
 		}
 		walk(art.Checksum, "")
-		if _, serr := ch.Status(work, art, false); serr != nil {
+		if round%3 == 2 {
+			// the same cache as an older dud left it: every manifest in the old schema (decoded by
+			// the concurrent workers of status and checkout)
+			n := 0
+			superseded, rewrittenNew = nil, map[string]bool{}
+			art.Checksum = rewriteManifest(cacheDir, art.Checksum, "", func(string) bool { return true }, &n)
+		}
+		if st, serr := ch.Status(work, art, false); serr != nil {
+			wrong++
+			fmt.Fprintln(os.Stderr, "race: status:", serr)
+		} else if !st.ContentsMatch {
+			wrong++
+			fmt.Fprintln(os.Stderr, "race: status right after commit is not up to date")
+		}
+		if _, serr := ch.Status(work, art, true); serr != nil {
 			wrong++
 			fmt.Fprintln(os.Stderr, "race: status:", serr)
 		}
